@@ -593,7 +593,13 @@ def canon_guard_semantics(ctx, scope):
                                 if 'assign' in s2 and s2['assign'].get('p') and s2['rv']['k'] == 'use' and const_int(s2['rv']['op']) == 1 and \
                                         ('named_type_written' in origin(b, s2['assign']).fields or is_bool_table(b.local_ty(s2['assign']['l']) or '') or 'bool' in (b.local_ty(s2['assign']['l']) or '')):
                                     marked = True
-                    cw.append((fn_label(b), inc and marked))
+                    # (one statement of a helper spliced into several call sites is one write)
+                    site = b.blocks[bb].get('inlined_bb') or '%s#%d' % (fn_label(b), bb)
+                    cw.append((fn_label(b), inc and marked, site))
+    sites_ = {}
+    for x in cw:
+        sites_[x[2]] = sites_.get(x[2], True) and x[1]
+    cw = [(k, v) for k, v in sorted(sites_.items())]
     ctx.ob('RECGUARD-T', 'canon/generation-counts-first-writes', len(cw) == 1 and all(x[1] for x in cw), short_loc(w.span),
            'writes of the named-types counter: %s (expected: one `+= 1` where the first-occurrence flag is set)' % ([('%s: %s' % x) for x in cw] or 'none'))
     # bracket: between enter and leave of the same arm lie all recursive calls of that arm; no recursion after a leave
